@@ -76,7 +76,78 @@ func isByteSlice(t types.Type) bool {
 
 // CollectAccesses returns the fixed-width byte-buffer accesses of fn:
 // ByteOrder.Put*/Uint* calls, single-byte stores and single-byte loads.
-func CollectAccesses(fn *ssa.Function) []Access {
+func CollectAccesses(fn *ssa.Function) []Access { return collectAccesses(fn, 0) }
+
+// helperAccesses maps the accesses a formats/ply helper makes to its []byte
+// parameters into the caller (one call level per recursion step, depth ≤ 2), so
+// that extracting `putF32(endian, buf[4:], v)` / `f32At(endian, buf, off)` does
+// not change what the layout rules see.
+func helperAccesses(call *ssa.Call, depth int) []Access {
+	if depth >= 2 {
+		return nil
+	}
+	cc := call.Common()
+	callee := cc.StaticCallee()
+	if callee == nil || callee.Blocks == nil || callee.Pkg == nil || callee.Pkg.Pkg.Path() != PlyPath {
+		return nil
+	}
+	hasBuf := false
+	for _, a := range cc.Args {
+		if isByteSlice(a.Type()) {
+			hasBuf = true
+		}
+	}
+	if !hasBuf {
+		return nil
+	}
+	paramIdx := map[ssa.Value]int{}
+	for i, p := range callee.Params {
+		paramIdx[p] = i
+	}
+	var out []Access
+	for _, a := range collectAccesses(callee, depth+1) {
+		pi, isParam := paramIdx[a.Buf]
+		if !isParam || pi >= len(cc.Args) {
+			continue
+		}
+		root, off, k, ok := bufRoot(cc.Args[pi])
+		m := Access{In: call, Put: a.Put, Width: a.Width, Buf: root, BufKey: PathKey(root), OffConst: k + a.OffConst, Kind: a.Kind}
+		if !ok {
+			m.Kind = "?"
+		}
+		// variable part of the offset: the helper's own (a parameter) or the argument slice's
+		switch {
+		case a.Off != nil && off != nil:
+			m.Kind = "?"
+		case a.Off != nil:
+			if oi, isP := paramIdx[StripConv(a.Off)]; isP && oi < len(cc.Args) {
+				m.Off = cc.Args[oi]
+			} else {
+				m.Kind = "?"
+			}
+		default:
+			m.Off = off
+		}
+		if a.Put {
+			// the written value in caller terms: the argument bound to the parameter it derives from
+			m.Val = call
+			BackSlice(a.Val, func(v ssa.Value) bool {
+				if vi, isP := paramIdx[v]; isP && vi < len(cc.Args) && !isByteSlice(v.Type()) {
+					if _, isIface := v.Type().Underlying().(*types.Interface); !isIface {
+						m.Val = cc.Args[vi]
+					}
+				}
+				return true
+			})
+		} else {
+			m.Val = call
+		}
+		out = append(out, m)
+	}
+	return out
+}
+
+func collectAccesses(fn *ssa.Function, depth int) []Access {
 	var out []Access
 	ssau.AllInstrs(fn, func(in ssa.Instruction) {
 		switch x := in.(type) {
@@ -84,6 +155,7 @@ func CollectAccesses(fn *ssa.Function) []Access {
 			cc, callee := CallTo(x)
 			w, put, ok := byteOrderMethod(callee)
 			if !ok {
+				out = append(out, helperAccesses(x, depth)...)
 				return
 			}
 			bufArg := Arg(cc, callee, 0)
